@@ -112,6 +112,14 @@ func (w *World) errValueConsumed(e, root ssa.Value, opts errOpts, seen map[ssa.V
 				}
 			}
 		case *ssa.Store:
+			// parked in a sticky error cell of a call-local sink object (errsticky.go)
+			if _, isCell := x.Addr.(*ssa.FieldAddr); isCell && x.Val == e {
+				if ok, f := w.stickyStoreConsumed(x, opts); ok {
+					return true, f
+				} else {
+					reasons = append(reasons, f)
+				}
+			}
 			// named result spilled because a deferred closure captures it:
 			// stored, then loaded by the return
 			if al, ok := x.Addr.(*ssa.Alloc); ok && x.Val == e {
